@@ -555,6 +555,7 @@ func cmdRandom(args []string) {
 		pool = append(pool, outp{[]interface{}{id, float64(0)}, g.D, g.Owner})
 	}
 	var txIDs []string
+	seenDef := map[string]bool{}
 	for i := 1; i <= *ntx; i++ {
 		id := fmt.Sprintf("t%d", i)
 		nin := 1
@@ -576,6 +577,9 @@ func cmdRandom(args []string) {
 			k := p.owner
 			if r.Intn(12) == 0 {
 				k = keys[r.Intn(len(keys))]
+			}
+			if len(td.Ins) > 0 && r.Intn(5) == 0 {
+				k = td.Ins[0].Key // a later input under the key of the first one (whoever owns it): the aggregate over (K, K) is signable by K alone
 			}
 			td.Ins = append(td.Ins, InDef{O: p.o, Key: k})
 			total += vals[p.d]
@@ -620,6 +624,13 @@ func cmdRandom(args []string) {
 		case 1:
 			td.Chain = "other"
 		}
+		// two definitions with the same content are ONE transaction (same hash): the specification would treat their outputs
+		// as different outpoints, so the universe must not contain such twins
+		sigKey := fmt.Sprintf("%v|%v|%s|%s", td.Ins, td.Outs, td.Sig, td.Chain)
+		if seenDef[sigKey] {
+			continue
+		}
+		seenDef[sigKey] = true
 		defs.Txs[id] = td
 		txIDs = append(txIDs, id)
 		for j, o := range td.Outs {
